@@ -147,6 +147,43 @@ def verus_scalar_units(plan):
     plan.assumptions.append("Verus: signed `/` is specified only for non-negative operands and signed `%` not at all; signed division/remainder with negative operands is decided by Kani for i8 only (quick) / where CBMC finishes (thorough)")
 
 
+def verus_shape_guards(plan):
+    """(F) the shape-compatibility tests of the matrix-with-vector dispatch arms of impl_binop_match_arms!
+    (src/core/src/stdlib.rs): accepted iff the vector is a column matching the rows or a row matching the columns."""
+    import vlib, re
+    from vlib import VerusUnit, verus_file, verus_canary, AnchorLost
+    text = vlib.read_repo("src/core/src/stdlib.rs")
+    mt = vlib.extract_macro(text, "impl_binop_match_arms")
+    items, fns = [], {}
+    specs = [
+        ("guard_matrix_vector", r"match \(rows,cols,rhs_shape\[0\],rhs_shape\[1\]\)\s*\{", "rows: usize, cols: usize, rhs_shape: [usize; 2]",
+         "r.is_ok() <==> ((rhs_shape[1] == 1 && rhs_shape[0] == rows) || (rhs_shape[0] == 1 && rhs_shape[1] == cols))",
+         "DMatrix (rows x cols) op vector: accepted iff the vector is rows x 1 or 1 x cols"),
+        ("guard_vector_matrix", r"match \(lhs_shape\[0\],lhs_shape\[1\],rows,cols\)\s*\{", "lhs_shape: [usize; 2], rows: usize, cols: usize",
+         "r.is_ok() <==> ((lhs_shape[1] == 1 && lhs_shape[0] == rows) || (lhs_shape[0] == 1 && lhs_shape[1] == cols))",
+         "vector op DMatrix (rows x cols): accepted iff the vector is rows x 1 or 1 x cols"),
+    ]
+    for name, rx, params, ens, what in specs:
+        ms = vlib.find_all_code(mt, rx)
+        if len(ms) != 1:
+            plan.anchor_errors.append(("C01.dispatch." + name, "shape test `%s` found %d times in impl_binop_match_arms!" % (rx, len(ms))))
+            continue
+        end = vlib.match_brace(mt, ms[0].end() - 1)
+        frag = mt[ms[0].start():end]
+        frag2, n = re.subn(r"return Err\(\s*MechError::new\(\s*DimensionMismatch\s*\{[^}]*\}\s*,\s*None\s*\)\.with_compiler_loc\(\)\s*\);", "return Err(());", frag, flags=re.S)
+        if n != 1 or "MechError" in frag2 or "$" in frag2:
+            plan.anchor_errors.append(("C01.dispatch." + name, "unexpected shape of the mismatch arm"))
+            continue
+        items.append("fn %s(%s) -> (r: Result<(), ()>)\n  ensures %s,\n{\n  %s\n  Ok(())\n}\n" % (name, params, ens, frag2))
+        fns[name] = "C01.dispatch." + name
+        plan.ob(fns[name], "verus", "proved", functions=["impl_binop_match_arms! (%s)" % name], what=what)
+    if not fns:
+        return
+    items.append(verus_canary("canary_guards", "x: u64", []))
+    plan.verus.append(VerusUnit("c01_shape_guards", verus_file(items), fns, ["canary_guards"]))
+    plan.dropped.append("(F) shape guards: the two `match (rows, cols, v_rows, v_cols) { .. }` blocks of impl_binop_match_arms! are copied verbatim, with the DimensionMismatch error construction rewritten to `return Err(())`; that the arm goes on to pick the kernel by the vector's storage type is not covered")
+
+
 def modname(op, prop="C01"):
     return "verif_%s_%s" % (prop.lower(), op)
 
@@ -274,6 +311,10 @@ def plan(plan, tier, seed, prop="C01", selector=None, twice=None):
                               replay_entry=lambda h, p=prop.lower(): "vkreplay_%s_%s" % (p, h.split("_")[1])))
     if not only and prop == "C01":
         verus_scalar_units(plan)
+        try:
+            verus_shape_guards(plan)
+        except Exception as e:
+            plan.anchor_errors.append(("C01.dispatch.guards", str(e)))
     plan.trusted += ["Verus 0.2026.09.13 / Z3 (scalar kernels, K)", "Kani 0.68 MIR->goto translation and CBMC 6.11 (bit-precise, incl. IEEE-754)", "nalgebra 0.34 is executed, not modelled",
                      "rustc; mirror = /repo sources + appended cfg(kani) harness modules only"]
     plan.assumptions += [
